@@ -361,7 +361,7 @@ def cacg_fit_instance(lead, N, D, with_saliency, cov_norm='eigenvalue', floor=1e
                     make, call, ensures, patches=patches, crosscheck=False, timeout=30.0, frame=True,
                     # trace normalisation: resolving the (complex, lexicographic) max against the eps guard is undecided in
                     # the budget -> this variant is evaluated natively only (bounded)
-                    mode='bounded' if cov_norm == 'trace' else 'proof', bounded_n=40)
+                    mode='bounded' if (cov_norm == 'trace' and not __import__('os').environ.get('C08_TRACE')) else 'proof', bounded_n=40)
 
 
 # ----------------------------------------------------------------------------- alternation of E and M steps
